@@ -22,7 +22,6 @@ def main():
         r = subprocess.run([sys.executable, a.replay])
         sys.exit(r.returncode)
 
-    sys.path.insert(0, "/verif")
     run = Run(a.pid, a.tier)
     run.only = a.only.split(",") if a.only else None
     try:
